@@ -261,6 +261,10 @@ class Summaries:
                 ep = self.elem_ptr(region, first=first)
                 if region and region[0] == "zip":
                     ep = None
+                if ep is not None and region and region[0] == "ext":
+                    dv = G.ptr.get(ep)
+                    if dv and dv[0] == "val" and is_int(dv[1]):
+                        s1.ghost[("last_input_byte",)] = dv[1]     # the input byte this path read last (later tests on it refine it)
                 s1.env[key] = new_obj(("iter", region, rem2, pos0 if isrev else "n", rev, lin))
                 if ep is None:
                     out.append((s1, _F()({("discr",): const_int(1)})))
